@@ -603,6 +603,8 @@ func main() {
 	c.Set("rule", fmt.Sprintf("every fixture block (all eras + generated Dijkstra) x {original, every single-header re-encoding of items at depth <= %d (EBB id list: first and last id only)%s} x 3 tips, through the server constructor + cbor.Encode and the client NewMsgFromCbor + ledger decode, NtC for all eras and NtN for Shelley..Dijkstra; distinct = (mode, fixture, variant class, tip)", depth, map[bool]string{true: ", every pair of re-encodings among depth <= 1 headers", false: ""}[pairs]))
 	c.Assume("blake2b-256 trusted; block hash of a Shelley-or-later block = blake2b-256 of its header item (located by the harness's own CBOR reader)")
 	c.Assume("the wrappers are driven through the same calls Server.RollForward and Client.handleRollForward make (constructor, cbor.Encode, NewMsgFromCbor, map lookup, ledger decode); the muxer/connection in between is covered by the E1 checks")
+	// free-running -race pass: concurrent callers on their own inputs (state the library shares between calls)
+	c.RaceAudit("c22")
 	c.Finish()
 }
 
